@@ -1,5 +1,360 @@
 import Driver.Proto
+import TonicModel.Basic.TlsVocab
+import TonicModel.Basic.TlsTestPki
+import TonicModel.Model.Tls
+import TonicModel.Spec.Tls
 namespace DriverC15
-/-- stub: property not yet claimed -/
-def handle (_case _obs : List String) : String × String := ("unclaimed", "fail:unclaimed")
+open Proto Tls Tls.TestPki
+
+abbrev COp := ClientOp Cert (List Cert)
+abbrev SOp := ServerOp Cert (List Cert)
+
+/-! ### case vocabulary → model inputs -/
+
+def hostOf : String → Option String
+  | "good" => some "good.test"
+  | "bad" => some "bad.test"
+  | "other" => some "other.test"
+  | "ip" => some "127.0.0.1"
+  | "invalid" => some "not a name!"
+  | _ => none
+
+def certOf : String → Option Cert
+  | "ca1" => some .ca1 | "ca2" => some .ca2 | "ica1" => some .ica1
+  | "s1good" => some .s1good | "s1bad" => some .s1bad | "s2good" => some .s2good | "s1ip" => some .s1ip
+  | "c1" => some .c1 | "c2" => some .c2
+  | _ => none
+
+/-- a certificate PEM blob of the harness -/
+def pemOf : String → Option (Pem Cert)
+  | "junk" => some (some [])        -- a PEM section that is not a certificate: parses, adds nothing
+  | "broken" => some none           -- malformed base64 inside a CERTIFICATE section
+  | "c1chain" => some (some [.c1leaf, .ica1])
+  | n => (certOf n).map (fun c => some [c])
+
+def identityOf : String → Option (IdentityPem (List Cert))
+  | "c1chain" => some { cert := some [.c1leaf, .ica1], keyOk := true, accepted := true }
+  | "brokencert" => some { cert := none, keyOk := true, accepted := true }
+  | "nokey" => some { cert := some [.c1], keyOk := false, accepted := true }
+  | n => (certOf n).map (fun c => { cert := some [c], keyOk := true, accepted := true })
+
+def schemeOf : String → Option Scheme
+  | "https" => some .https
+  | "HTTPS" => some .https           -- http::Uri parses the scheme case-insensitively
+  | "http" => some .http
+  -- `+o<scheme>`: Endpoint::origin(..) set as well; it does not take part in the TLS decision
+  | "https+ohttp" => some .https
+  | "http+ohttps" => some .http
+  | _ => none
+
+def mapM? {α β : Type} (f : α → Option β) : List α → Option (List β)
+  | [] => some []
+  | a :: as => match f a, mapM? f as with
+    | some b, some bs => some (b :: bs)
+    | _, _ => none
+
+def clientOp (t : String) : Option COp :=
+  match t.splitOn ":" with
+  | ["ca", n] => (pemOf n).map .caCertificate
+  | ["cas", ns] => (mapM? pemOf (ns.splitOn "+")).map .caCertificates
+  | ["ta", n] => (certOf n).map .trustAnchor
+  | ["tas", ns] => (mapM? certOf (ns.splitOn "+")).map .trustAnchors
+  | ["dom", d] => (hostOf d).map .domainName
+  | ["id", n] => (identityOf n).map .identity
+  | ["h2", "0"] => some (.assumeHttp2 false)
+  | ["h2", "1"] => some (.assumeHttp2 true)
+  | ["roots"] => some .withEnabledRoots
+  | _ => none
+
+def serverOp (t : String) : Option SOp :=
+  match t.splitOn ":" with
+  | ["id", n] => (identityOf n).map .identity
+  | ["ca", n] => (pemOf n).map .clientCaRoot
+  | ["opt", "0"] => some (.clientAuthOptional false)
+  | ["opt", "1"] => some (.clientAuthOptional true)
+  | ["ico", "0"] => some (.ignoreClientOrder false)
+  | ["ico", "1"] => some (.ignoreClientOrder true)
+  | _ => none
+
+def serverOps (t : String) : Option (List SOp) :=
+  if t = "-" then some [] else mapM? serverOp (t.splitOn "+")
+
+inductive ClientSetup
+  | notls                       -- Endpoint::from_shared, no tls_config
+  | auto                        -- Endpoint::new (hidden API used by generated code)
+  | ops (l : List COp)          -- from_shared + tls_config(ClientTlsConfig::new().<ops>)
+
+def clientSetup (ts : List String) : Option ClientSetup :=
+  match ts with
+  | ["notls"] => some .notls
+  | ["auto"] => some .auto
+  | _ => (mapM? clientOp ts).map .ops
+
+def alpnList : String → Option (List String)
+  | "none" => some []
+  | "http11" => some ["http/1.1"]
+  | "h2first" => some ["h2", "http/1.1"]
+  | "h2last" => some ["http/1.1", "h2"]
+  | "h2only" => some ["h2"]
+  | _ => none
+
+/-- One client of a case. -/
+structure ClientPart where
+  scheme : Scheme
+  uri : Uri
+  client : ClientSetup
+
+/-- The server of a case, the transport, and the run mode. -/
+structure ServerPart where
+  serverCert : Cert
+  alpn : String
+  sops : List SOp
+  inner : InnerInfo
+  /-- `-x2`: every client connects twice (handlers run twice on success) -/
+  twice : Bool
+
+structure Case where
+  c : ClientPart
+  s : ServerPart
+
+def splitAt? (ts : List String) : Option (List String × List String) :=
+  match ts.span (· ≠ ";") with
+  | (a, _ :: b) => some (a, b)
+  | _ => none
+
+/-- split a token list on `|` -/
+def splitBar (ts : List String) : List (List String) :=
+  ts.foldr (fun t acc => if t = "|" then [] :: acc else match acc with
+    | [] => [[t]]
+    | g :: gs => (t :: g) :: gs) [[]]
+
+def parseClient (ts : List String) : Option ClientPart :=
+  match ts with
+  | sch :: uh :: cops =>
+    match schemeOf sch, hostOf uh, clientSetup cops with
+    | some scheme, some host, some client =>
+      some { scheme, uri := { scheme := some scheme, host := some host }, client }
+    | _, _, _ => none
+  | _ => none
+
+/-- transport token: `tcp|duplex` then any of `-lazy` (connect_with_connector_lazy + one retry),
+`-x2` (two connections per client), `-par` (clients run concurrently) — only `-x2` changes the
+expected outcome (handler count) -/
+def parseTransport (tr : String) : Option (InnerInfo × Bool) :=
+  match tr.splitOn "-" with
+  | base :: flags =>
+    let inner? : Option InnerInfo := if base = "tcp" then some .tcp else if base = "duplex" then some .other else none
+    -- `-native`: Endpoint::connect()/connect_lazy() with tonic's HttpConnector (through a
+    -- recording proxy); `-cto`: connect_timeout set. Same decision logic.
+    if flags.all (fun f => f = "lazy" || f = "x2" || f = "par" || f = "native" || f = "cto") then
+      inner?.map (fun i => (i, flags.contains "x2"))
+    else none
+  | [] => none
+
+def parseCases (ts : List String) : Option (List Case) :=
+  match ts with
+  | "tls" :: rest =>
+    match splitAt? rest with
+    | some (cpart, [sc, alpn, sops, tr]) =>
+      match mapM? parseClient (splitBar cpart), certOf sc, serverOps sops, parseTransport tr with
+      | some clients, some serverCert, some sops, some (inner, twice) =>
+        let s : ServerPart := { serverCert, alpn, sops, inner, twice }
+        some (clients.map fun c => { c, s })
+      | _, _, _, _ => none
+    | _ => none
+  | _ => none
+
+/-! ### model side -/
+
+def endpointOf (c : Case) : Except CfgErr (Endpoint Cert (List Cert)) :=
+  match c.c.client with
+  | .notls => .ok (Endpoint.fromShared c.c.uri)
+  | .auto => Endpoint.new sys c.c.uri
+  | .ops l => (Endpoint.fromShared c.c.uri).tlsConfig sys (ClientTlsConfig.build l)
+
+/-- The server of the case. `h2` is tonic's own acceptor configured through `ServerTlsConfig`;
+the other ALPN variants are a hand-rolled rustls acceptor given the same identity and the
+client-auth mode the *oracle* reads off the ops (it is not tonic code). -/
+def serverOf (c : Case) : Option (ServerKind Cert (List Cert)) :=
+  let idOp : SOp := .identity { cert := some [c.s.serverCert], keyOk := true, accepted := true }
+  if c.s.alpn = "h2" then
+    match (ServerTlsConfig.build (idOp :: c.s.sops)).tlsAcceptor with
+    | .ok s => some (.tonicTls s)
+    | _ => none
+  else if c.s.alpn = "plain" then some .plain
+  else
+    match alpnList c.s.alpn with
+    | none => none
+    | some al =>
+      let mode : Option (ClientAuth Cert) :=
+        match Spec.Tls.clientCa c.s.sops with
+        | none => some .off
+        | some pem =>
+          let rs := Spec.Tls.pemRoots pem
+          if rs.isEmpty then none
+          else if Spec.Tls.authOptional c.s.sops then some (.optional rs) else some (.required rs)
+      mode.map fun m => .userTls { chain := [c.s.serverCert], clientAuth := m, alpn := al }
+
+def cfgErrTok : CfgErr → String
+  | .invalidUri => "invalid-uri"
+  | .nativeCertsNotFound => "native-certs-not-found"
+  | .certParse => "cert-parse"
+  | .keyParse => "key-parse"
+  | .identityRejected => "identity-rejected"
+  | .invalidDnsName => "invalid-dns-name"
+  | .noRootAnchors => "no-root-anchors"
+
+def whyTok : Why → String
+  | .conn .dial => "dial"
+  | .conn .httpsWithoutTls => "https-without-tls"
+  | .conn .alpnAlert => "alpn-alert"
+  | .conn (.badCert .unknownIssuer) => "server-cert:unknown-issuer"
+  | .conn (.badCert .nameMismatch) => "server-cert:name-mismatch"
+  | .conn (.badCert .other) => "server-cert:other"
+  | .conn .tlsError => "tls-error"
+  | .conn .h2NotNegotiated => "h2-not-negotiated"
+  | .rejected => "rejected"
+
+/-- certs as the handler-side token: `none` or `<count>:eq` (the model exposes exactly the
+presented chain, so it always says `eq`) -/
+def certsTok : Option (List Cert) → String
+  | none => "none"
+  | some ch => s!"{ch.length}:eq"
+
+def outcomeToks (twice : Bool) (o : Outcome (List Cert)) : String :=
+  let res := if o.ok then "ok" else "fail:" ++ (match o.why with | some w => whyTok w | none => "?")
+  let peer := match o.peer with | none => "-" | some p => certsTok p
+  let ext := match o.ext with
+    | none => "-"
+    | some none => "absent"
+    | some (some e) => certsTok e
+  s!"res={res} cfg=ok h={if twice then 2 * o.handlers else o.handlers} peer={peer} ext={ext} plain={if o.plaintext then 1 else 0} dial=1"
+
+def modelOut (c : Case) : String :=
+  match endpointOf c with
+  | .error e => s!"res=fail:config cfg=err:{cfgErrTok e} h=0 peer=- ext=- plain=0 dial=0"
+  | .ok ep =>
+    match serverOf c with
+    | none => "server-config-unusable"
+    | some srv => outcomeToks c.s.twice (scenario ep srv c.s.inner handshake)
+
+/-! ### spec verdict on the OBSERVED output (written against `Spec/`, not the model) -/
+
+structure Obs where
+  cfgOk : Bool
+  resOk : Bool
+  handlers : Nat
+  peer : String
+  ext : String
+  plain : Bool
+
+def field (pre : String) (ts : List String) : Option String :=
+  (ts.find? (·.startsWith pre)).map (fun t => (t.drop pre.length).toString)
+
+def parseObs (ts : List String) : Option Obs :=
+  match field "cfg=" ts, field "res=" ts, field "h=" ts, field "peer=" ts, field "ext=" ts, field "plain=" ts with
+  | some cfg, some res, some h, some peer, some ext, some plain =>
+    match h.toNat? with
+    | some n => some { cfgOk := cfg = "ok", resOk := res = "ok", handlers := n, peer, ext, plain := plain ≠ "0" }
+    | none => none
+  | _, _, _, _, _, _ => none
+
+/-- The chain the client is configured to present, per the oracle. -/
+def clientChain (c : Case) : Option (List Cert) :=
+  match c.c.client with
+  | .ops l => (Spec.Tls.configuredIdentity l).bind (·.cert)
+  | _ => none
+
+/-- Server ALPN list and server ops of the case, for the oracle. -/
+def serverAlpn (c : Case) : Option (List String) :=
+  if c.s.alpn = "h2" then some ["h2"] else alpnList c.s.alpn
+
+/-- `MayTransmit` decided in the test world. -/
+def mayTransmit (c : Case) : Bool :=
+  match c.c.client, serverAlpn c with
+  | .ops l, some sal =>
+    (match Spec.Tls.expectedName l c.c.uri with
+     | some name => verifies (Spec.Tls.configuredRoots sys l) [c.s.serverCert] name
+     | none => false) &&
+    (negotiate [alpnH2] sal == some (some alpnH2) || Spec.Tls.assumes l)
+  | .auto, some sal =>
+    -- generated-code path: TLS with the enabled roots only, name from the URI, no opt-out
+    (match c.c.uri.host with
+     | some name => verifies (Spec.Tls.configuredRoots sys ([.withEnabledRoots] : List COp)) [c.s.serverCert] name
+     | none => false) && negotiate [alpnH2] sal == some (some alpnH2)
+  | _, _ => false
+
+/-- `MayServe` decided in the test world from what the handler saw (`ext`). -/
+def mayServe (c : Case) (o : Obs) : Bool :=
+  match Spec.Tls.clientCa c.s.sops with
+  | none => true
+  | some pem =>
+    (match clientChain c with
+     | some ch => o.ext == s!"{ch.length}:eq" && verifiesClient (Spec.Tls.pemRoots pem) ch
+     | none => false) ||
+    (Spec.Tls.authOptional c.s.sops && o.ext == "none")
+
+def specVerdict (c : Case) (o : Obs) : String :=
+  let https := c.c.scheme = .https
+  let served := o.resOk || o.handlers > 0
+  let tlsServer := c.s.alpn ≠ "plain"
+  verdict [
+    ("no-handler-when-call-failed", o.resOk || o.handlers == 0),
+    ("no-call-without-config", o.cfgOk || !served),
+    ("https-never-plaintext", !https || !o.plain),
+    ("transmit-only-if-server-authenticated-and-h2", !(https && served) || (tlsServer && mayTransmit c)),
+    ("serve-only-authenticated-clients", !(tlsServer && o.handlers > 0) || mayServe c o),
+    -- whatever is exposed is the presented chain, and it verified against the client CA
+    ("exposed-certs-are-the-verified-chain",
+      !(o.handlers > 0) || o.ext == "none" || o.ext == "absent" ||
+        (match clientChain c, Spec.Tls.clientCa c.s.sops with
+         | some ch, some pem => o.ext == s!"{ch.length}:eq" && verifiesClient (Spec.Tls.pemRoots pem) ch
+         | _, _ => false)),
+    -- a verified chain IS exposed (TlsConnectInfo; and Request::peer_certs over TCP)
+    ("verified-certs-are-exposed",
+      !(tlsServer && o.handlers > 0) ||
+        (match clientChain c, Spec.Tls.clientCa c.s.sops with
+         | some ch, some pem =>
+           !(verifiesClient (Spec.Tls.pemRoots pem) ch) ||
+             (o.ext == s!"{ch.length}:eq" && (c.s.inner != .tcp || o.peer == o.ext))
+         | _, _ => true)),
+    ("peer-certs-only-from-tls-info", !(o.handlers > 0) || o.peer == "none" || o.peer == o.ext)
+  ]
+
+/-- `srvcfg <ops>`: only `Server::builder().tls_config(..)`. -/
+def handleSrvCfg (opsTok : String) (obs : List String) : String × String :=
+  match serverOps opsTok with
+  | none => bad
+  | some ops =>
+    let model := match (ServerTlsConfig.build ops).tlsAcceptor with
+      | .ok _ => "ok"
+      | .err e => "err:" ++ cfgErrTok e
+      | .panic => "panic"
+    -- the property does not speak about configuration errors; the one thing the oracle insists
+    -- on is that a configuration WITH an identity never panics
+    let hasId := ops.any (fun o => match o with | .identity _ => true | _ => false)
+    (model, verdict [("no-panic-with-identity", !(hasId && obs == ["panic"]))])
+
+def handle (case obs : List String) : String × String :=
+  match case with
+  | ["srvcfg", ops] => handleSrvCfg ops obs
+  | _ =>
+  match parseCases case with
+  | none => bad
+  | some cs =>
+    let model := String.intercalate " | " (cs.map modelOut)
+    -- one observation group per client, separated by `|`
+    let groups := splitBar obs
+    let v :=
+      if groups.length ≠ cs.length then "fail:unreadable-observation"
+      else
+        let vs := (cs.zip groups).map fun (c, g) =>
+          match parseObs g with
+          | some o => specVerdict c o
+          | none => "fail:unreadable-observation"
+        match vs.find? (· ≠ "ok") with
+        | some bad => bad
+        | none => "ok"
+    (model, v)
+
 end DriverC15
